@@ -1,0 +1,272 @@
+//go:build verif
+// +build verif
+
+package linker
+
+// Observation hook for the /verif correspondence harness (build tag "verif" only): reports, for every JS chunk,
+// what renameSymbolsInChunk read (options, files in order with their scope trees, parts, wrapper / exports /
+// module refs, nested slot counts, the cross-chunk imports, every symbol these mention) and the final name the
+// returned renamer gives to each of those symbols.
+
+import (
+	"sort"
+
+	"github.com/evanw/esbuild/internal/ast"
+	"github.com/evanw/esbuild/internal/config"
+	"github.com/evanw/esbuild/internal/graph"
+	"github.com/evanw/esbuild/internal/js_ast"
+	"github.com/evanw/esbuild/internal/renamer"
+)
+
+type VerifCNSym struct {
+	Ref      [2]uint32
+	Stable   uint32
+	Ns       int
+	Name     string
+	JSX      bool
+	HasLink  bool
+	Link     [2]uint32
+	HasAlias bool
+	Alias    [2]uint32
+	Slot     int    // NestedScopeSlot, -1 = invalid
+	Final    string // NameForSymbol
+	Panicked bool   // NameForSymbol panicked
+}
+
+type VerifCNScope struct {
+	Members   [][2]uint32 // sorted by ref (Go map)
+	Generated [][2]uint32
+	HasLabel  bool
+	Label     [2]uint32
+	Children  []VerifCNScope
+}
+
+type VerifCNStmt struct {
+	Kind       int // 0 import, 1 export star, 2 export from
+	Ext        bool
+	Ns         [2]uint32
+	HasDefault bool
+	Default    [2]uint32
+	Items      [][2]uint32
+}
+
+type VerifCNDecl struct {
+	Ref        [2]uint32
+	IsTopLevel bool
+}
+
+type VerifCNUse struct {
+	Ref   [2]uint32
+	Count uint32
+}
+
+type VerifCNPart struct {
+	Live     bool
+	Declared []VerifCNDecl
+	Uses     []VerifCNUse // sorted by ref (Go map)
+	Scopes   [][]int      // part.Scopes as child-index paths from the module scope
+	Stmts    []VerifCNStmt
+}
+
+type VerifCNFile struct {
+	Src         uint32
+	Stable      uint32
+	Wrap        int
+	HasWrapper  bool
+	WrapperRef  [2]uint32
+	UsesExports bool
+	ExportsRef  [2]uint32
+	UsesModule  bool
+	ModuleRef   [2]uint32
+	SlotCounts  [4]uint32
+	Module      VerifCNScope
+	Parts       []VerifCNPart
+}
+
+type VerifCNDump struct {
+	ChunkIndex int
+	Minify     bool
+	CJSNode    bool
+	Bundling   bool
+	KeepESM    bool
+	Minifier   ast.NameMinifier
+	Files      []VerifCNFile
+	Imports    [][2]uint32 // importsFromOtherChunks, chunk keys ascending, items in stored order
+	Syms       []VerifCNSym
+	Bad        string // non-empty: the hook could not describe the chunk (e.g. a scope outside the module tree)
+}
+
+var verifCNObserver func(VerifCNDump)
+
+// VerifSetChunkNamesObserver installs (or with nil removes) the observer. It is called from the chunk goroutines.
+func VerifSetChunkNamesObserver(f func(VerifCNDump)) {
+	verifShakeMutex.Lock()
+	verifCNObserver = f
+	verifShakeMutex.Unlock()
+}
+
+type verifCNCollector struct {
+	c    *linkerContext
+	seen map[ast.Ref]bool
+	list []ast.Ref
+}
+
+func (k *verifCNCollector) add(ref ast.Ref) {
+	for ref != ast.InvalidRef && !k.seen[ref] {
+		k.seen[ref] = true
+		k.list = append(k.list, ref)
+		sym := k.c.graph.Symbols.Get(ref)
+		if sym.NamespaceAlias != nil {
+			k.add(sym.NamespaceAlias.NamespaceRef)
+		}
+		ref = sym.Link
+	}
+}
+
+func (k *verifCNCollector) ref(ref ast.Ref) [2]uint32 {
+	k.add(ref)
+	return [2]uint32{ref.SourceIndex, ref.InnerIndex}
+}
+
+func (k *verifCNCollector) scope(s *js_ast.Scope, path []int, paths map[*js_ast.Scope][]int) VerifCNScope {
+	paths[s] = append([]int{}, path...)
+	out := VerifCNScope{}
+	for _, m := range s.Members {
+		out.Members = append(out.Members, k.ref(m.Ref))
+	}
+	sort.Slice(out.Members, func(i, j int) bool { return verifRefLess(out.Members[i], out.Members[j]) })
+	for _, g := range s.Generated {
+		out.Generated = append(out.Generated, k.ref(g))
+	}
+	if s.Label.Ref != ast.InvalidRef {
+		out.HasLabel = true
+		out.Label = k.ref(s.Label.Ref)
+	}
+	for i, ch := range s.Children {
+		out.Children = append(out.Children, k.scope(ch, append(path, i), paths))
+	}
+	return out
+}
+
+func verifObserveChunkNames(c *linkerContext, chunk *chunkInfo, filesInOrder []uint32, r renamer.Renamer) {
+	verifShakeMutex.Lock()
+	obs := verifCNObserver
+	verifShakeMutex.Unlock()
+	if obs == nil {
+		return
+	}
+	d := VerifCNDump{
+		Minify:   c.options.MinifyIdentifiers,
+		CJSNode:  c.options.OutputFormat == config.FormatCommonJS && c.options.Platform == config.PlatformNode,
+		Bundling: c.options.Mode != config.ModePassThrough,
+		KeepESM:  c.options.OutputFormat.KeepESMImportExportSyntax(),
+	}
+	for i := range c.chunks {
+		if &c.chunks[i] == chunk {
+			d.ChunkIndex = i
+		}
+	}
+	k := &verifCNCollector{c: c, seen: map[ast.Ref]bool{}}
+	freq := ast.CharFreq{}
+	for _, sourceIndex := range filesInOrder {
+		repr := c.graph.Files[sourceIndex].InputFile.Repr.(*graph.JSRepr)
+		if repr.AST.CharFreq != nil {
+			freq.Include(repr.AST.CharFreq)
+		}
+		f := VerifCNFile{Src: sourceIndex, Stable: c.graph.StableSourceIndices[sourceIndex], Wrap: int(repr.Meta.Wrap),
+			UsesExports: repr.AST.UsesExportsRef, UsesModule: repr.AST.UsesModuleRef, SlotCounts: repr.AST.NestedScopeSlotCounts}
+		if repr.AST.WrapperRef != ast.InvalidRef {
+			f.HasWrapper = true
+			f.WrapperRef = k.ref(repr.AST.WrapperRef)
+		}
+		f.ExportsRef = k.ref(repr.AST.ExportsRef)
+		f.ModuleRef = k.ref(repr.AST.ModuleRef)
+		paths := map[*js_ast.Scope][]int{}
+		f.Module = k.scope(repr.AST.ModuleScope, nil, paths)
+		for partIndex, part := range repr.AST.Parts {
+			p := VerifCNPart{Live: repr.AST.Parts[partIndex].IsLive}
+			for _, ds := range part.DeclaredSymbols {
+				p.Declared = append(p.Declared, VerifCNDecl{Ref: k.ref(ds.Ref), IsTopLevel: ds.IsTopLevel})
+			}
+			for ref, use := range part.SymbolUses {
+				p.Uses = append(p.Uses, VerifCNUse{Ref: k.ref(ref), Count: use.CountEstimate})
+			}
+			sort.Slice(p.Uses, func(i, j int) bool { return verifRefLess(p.Uses[i].Ref, p.Uses[j].Ref) })
+			for _, s := range part.Scopes {
+				path, ok := paths[s]
+				depth := 0
+				for q := s; q.Parent != nil; q = q.Parent {
+					depth++
+				}
+				if !ok || depth != len(path) {
+					d.Bad = "a scope of part.Scopes is not in the module scope tree at the depth its parents say"
+				}
+				p.Scopes = append(p.Scopes, append([]int{}, path...))
+			}
+			for _, stmt := range part.Stmts {
+				switch s := stmt.Data.(type) {
+				case *js_ast.SImport:
+					st := VerifCNStmt{Kind: 0, Ext: !repr.AST.ImportRecords[s.ImportRecordIndex].SourceIndex.IsValid(), Ns: k.ref(s.NamespaceRef)}
+					if s.DefaultName != nil {
+						st.HasDefault = true
+						st.Default = k.ref(s.DefaultName.Ref)
+					}
+					if s.Items != nil {
+						for _, item := range *s.Items {
+							st.Items = append(st.Items, k.ref(item.Name.Ref))
+						}
+					}
+					p.Stmts = append(p.Stmts, st)
+				case *js_ast.SExportStar:
+					p.Stmts = append(p.Stmts, VerifCNStmt{Kind: 1, Ext: !repr.AST.ImportRecords[s.ImportRecordIndex].SourceIndex.IsValid(), Ns: k.ref(s.NamespaceRef)})
+				case *js_ast.SExportFrom:
+					st := VerifCNStmt{Kind: 2, Ext: !repr.AST.ImportRecords[s.ImportRecordIndex].SourceIndex.IsValid(), Ns: k.ref(s.NamespaceRef)}
+					for _, item := range s.Items {
+						st.Items = append(st.Items, k.ref(item.Name.Ref))
+					}
+					p.Stmts = append(p.Stmts, st)
+				}
+			}
+			f.Parts = append(f.Parts, p)
+		}
+		d.Files = append(d.Files, f)
+	}
+	d.Minifier = ast.DefaultNameMinifierJS.ShuffleByCharFreq(freq)
+	from := chunk.chunkRepr.(*chunkReprJS).importsFromOtherChunks
+	keys := []int{}
+	for ci := range from {
+		keys = append(keys, int(ci))
+	}
+	sort.Ints(keys)
+	for _, ci := range keys {
+		for _, item := range from[uint32(ci)] {
+			d.Imports = append(d.Imports, k.ref(item.ref))
+		}
+	}
+	for _, ref := range k.list {
+		sym := c.graph.Symbols.Get(ref)
+		s := VerifCNSym{Ref: [2]uint32{ref.SourceIndex, ref.InnerIndex}, Stable: c.graph.StableSourceIndices[ref.SourceIndex],
+			Ns: int(sym.SlotNamespace()), Name: sym.OriginalName, JSX: sym.Flags.Has(ast.MustStartWithCapitalLetterForJSX), Slot: -1}
+		if sym.Link != ast.InvalidRef {
+			s.HasLink = true
+			s.Link = [2]uint32{sym.Link.SourceIndex, sym.Link.InnerIndex}
+		}
+		if sym.NamespaceAlias != nil {
+			s.HasAlias = true
+			s.Alias = [2]uint32{sym.NamespaceAlias.NamespaceRef.SourceIndex, sym.NamespaceAlias.NamespaceRef.InnerIndex}
+		}
+		if sym.NestedScopeSlot.IsValid() {
+			s.Slot = int(sym.NestedScopeSlot.GetIndex())
+		}
+		func() {
+			defer func() {
+				if recover() != nil {
+					s.Panicked = true
+				}
+			}()
+			s.Final = r.NameForSymbol(ref)
+		}()
+		d.Syms = append(d.Syms, s)
+	}
+	obs(d)
+}
